@@ -201,7 +201,10 @@ class Executor(Engine, ExprMixin, StmtMixin, CallMixin):
             res = V(rt, rspec)
             env2 = dict(env)
             env2['result'] = res
+            import re as _re2
             for name, expr in c.ensures.items():
+                if 'FOLD(' in expr or any(_re2.search(r'\b%s\b' % _re2.escape(g), expr) for g in c.ghost):
+                    continue
                 wd, truth = self.eval_spec(st, expr, c, env2, pre)
                 self.assume(st, z3.Implies(wd, truth))
             return res
